@@ -28,7 +28,7 @@ def sh(*a: str, **kw) -> subprocess.CompletedProcess:
 
 def run_patch(pdir: str, tier: str) -> dict:
     name = pdir.rstrip("/").replace("/", "_").strip("_")
-    patch = os.path.join(pdir, "patch.diff")
+    patch = os.path.abspath(os.path.join(pdir, "patch.diff"))
     root = "/tmp/vsm"
     os.makedirs(root, exist_ok=True)
     wt = os.path.join(root, name)
